@@ -9,10 +9,18 @@
 // the CA above it, the one above that, the root) may list the CT EKU next to or instead of
 // serverAuth and may lack a subject key id (so that the final issuer is not "the first CA without
 // the CT EKU" and the pre-issuer comes with and without an authority key id), with 0-3
-// certificates above the final issuer; log keys ECDSA P-256 and RSA 2048; clock values at millisecond
+// certificates above the final issuer; log keys ECDSA P-256 / P-384 / P-521 and RSA 2048 / 3072 /
+// 4096 (the SCT's signature is verified with the standard library under the hash its
+// DigitallySigned header DECLARES, which in turn has to be SHA-256); instance options that must
+// not influence the entry drawn per history (certificate and remote quota users, masked internal
+// errors, the production request log behind the recording one, the RPC deadline) next to the
+// plain configuration; clock values at millisecond
 // boundaries, with nanosecond remainders, far in the future, not monotone; histories that mix
 // first-time and repeated submissions of the same leaf with the same / a longer / a shorter /
-// another chain.
+// another chain.  CA (and some leaf) subject names are given as hand-encoded RawSubject bytes in
+// forms pkix.Name does not emit (names.go), so that copying a name and re-encoding the parsed name
+// differ; every history submits a trusted certificate on its own (validated path = the leaf alone,
+// extra data = the encoding of an EMPTY chain).
 //
 // For every request the harness records the QueueLeafRequest, RequestLog.IssueSCT and the
 // response, and evaluates the property's sentence directly (independent of the Coq model):
@@ -25,7 +33,8 @@
 // knows to be the final issuer), TBSCertificate.issuer = that certificate's subject, authority key
 // id = its subject key id, no poison; LeafValue = that entry at the request's own
 // timestamp; LeafIdentityHash = SHA-256(submitted leaf); ExtraData = the validated chain with
-// the root; a repeat carries the first submission's timestamp, a first submission the clock's.
+// the root (hand encoding; and a get-entries client's decoder gets the leaf and that chain back
+// out of LeafValue + ExtraData); a repeat carries the first submission's timestamp, a first submission the clock's.
 package main
 
 import (
@@ -34,7 +43,9 @@ import (
 	"crypto"
 	"crypto/ecdsa"
 	"crypto/rsa"
+	"crypto/sha1"
 	"crypto/sha256"
+	"crypto/sha512"
 	"encoding/base64"
 	"encoding/binary"
 	"encoding/json"
@@ -43,6 +54,7 @@ import (
 	"io"
 	"math/big"
 	mrand "math/rand"
+	"net/http"
 	"net/http/httptest"
 	"strings"
 	"time"
@@ -50,6 +62,7 @@ import (
 	ct "github.com/google/certificate-transparency-go"
 	"github.com/google/certificate-transparency-go/asn1"
 	"github.com/google/certificate-transparency-go/tls"
+	"github.com/google/certificate-transparency-go/trillian/ctfe"
 	"github.com/google/certificate-transparency-go/x509"
 	"github.com/google/certificate-transparency-go/x509/pkix"
 	"github.com/google/trillian"
@@ -132,13 +145,57 @@ type world struct {
 	items   []*item
 	logKind string
 	logKey  crypto.Signer
+	opts    instOpts
 	tags    []string
+	// subject names: common name -> hand-encoded DER (nil = left to pkix.Name) and its style
+	nameRaw   map[string][]byte
+	nameStyle map[string]string
+	styleOf   map[*pki.Entity]string
+	alone     []*item // trusted certificates submitted on their own (validated path of length 1)
+	pool      []*item // every other item
+}
+
+// subject decides once per common name (cross-certified twins share it) how the subject is
+// encoded: by harness/pki from a pkix.Name ("go") or as RawSubject bytes assembled in names.go.
+func (w *world) subject(cn string, handOneIn, outOf int) ([]byte, string) {
+	if w.nameStyle == nil {
+		w.nameRaw, w.nameStyle, w.styleOf = map[string][]byte{}, map[string]string{}, map[*pki.Entity]string{}
+	}
+	if st, ok := w.nameStyle[cn]; ok {
+		return w.nameRaw[cn], st
+	}
+	style := "go"
+	if w.r.Intn(outOf) < handOneIn {
+		style = nameStyles[1+w.r.Intn(len(nameStyles)-1)]
+	}
+	var raw []byte
+	if style != "go" {
+		raw = handName(w.r, style, cn)
+	}
+	w.nameRaw[cn], w.nameStyle[cn] = raw, style
+	return raw, style
+}
+
+func withRawSubject(raw []byte) func(*x509.Certificate) {
+	if raw == nil {
+		return nil
+	}
+	return func(t *x509.Certificate) { t.RawSubject = raw }
 }
 
 func ski(r *mrand.Rand) []byte { return randBytes(r, 20) }
 
 func (w *world) ca(cn string, parent *pki.Entity, ekus []x509.ExtKeyUsage, keyIdx int, kind string, skid []byte) *pki.Entity {
-	return pki.Issue(pki.Opts{CN: cn, IsCA: true, KeyKind: kind, KeyIdx: keyIdx, SKI: skid, EKUs: ekus}, parent)
+	raw, style := w.subject(cn, 3, 4)
+	e := pki.Issue(pki.Opts{CN: cn, IsCA: true, KeyKind: kind, KeyIdx: keyIdx, SKI: skid, EKUs: ekus, Mutate: withRawSubject(raw)}, parent)
+	w.styleOf[e] = style
+	if raw != nil && !bytes.Equal(handSubject(e.DER), raw) {
+		panic("harness/pki did not issue the certificate with the subject bytes it was given")
+	}
+	if parent != nil && !bytes.Equal(handIssuer(e.DER), handSubject(parent.DER)) {
+		panic("harness/pki did not issue the certificate with its issuer's subject bytes")
+	}
+	return e
 }
 
 // leafPair issues a certificate or a precertificate (+ its final certificate) under `signer`;
@@ -152,6 +209,7 @@ func (w *world) leaf(k int, pre bool, signer, finalSigner *pki.Entity) (leaf, fi
 		others = append(others, randExt(r, j))
 	}
 	cn := fmt.Sprintf("leaf-%d-%d.example", w.id, k)
+	rawSubj, subjStyle := w.subject(cn, 1, 3)
 	serialBytes := randBytes(r, 1+r.Intn(16))
 	serialBytes[0] = serialBytes[0]&0x7f | 1
 	var leafSKI []byte
@@ -160,16 +218,16 @@ func (w *world) leaf(k int, pre bool, signer, finalSigner *pki.Entity) (leaf, fi
 	}
 	mk := func(extra []pkix.Extension, parent *pki.Entity) *pki.Entity {
 		return pki.Issue(pki.Opts{CN: cn, KeyKind: kind, KeyIdx: 4 + r.Intn(2), Serial: newInt(serialBytes), ExtraExt: extra, SKI: leafSKI,
-			DNSNames: []string{cn}, EKUs: []x509.ExtKeyUsage{x509.ExtKeyUsageServerAuth}}, parent)
+			DNSNames: []string{cn}, EKUs: []x509.ExtKeyUsage{x509.ExtKeyUsageServerAuth}, Mutate: withRawSubject(rawSubj)}, parent)
 	}
 	if !pre {
-		return mk(others, signer), nil, fmt.Sprintf("cert key=%s ext=%d", kind, nExtra)
+		return mk(others, signer), nil, fmt.Sprintf("cert key=%s ext=%d subject-dn=%s", kind, nExtra, subjStyle)
 	}
 	// same key slot for precert and final certificate
 	slot := 4 + r.Intn(2)
 	mk = func(extra []pkix.Extension, parent *pki.Entity) *pki.Entity {
 		return pki.Issue(pki.Opts{CN: cn, KeyKind: kind, KeyIdx: slot, Serial: newInt(serialBytes), ExtraExt: extra, SKI: leafSKI,
-			DNSNames: []string{cn}, EKUs: []x509.ExtKeyUsage{x509.ExtKeyUsageServerAuth}}, parent)
+			DNSNames: []string{cn}, EKUs: []x509.ExtKeyUsage{x509.ExtKeyUsageServerAuth}, Mutate: withRawSubject(rawSubj)}, parent)
 	}
 	pi := r.Intn(len(others) + 1)
 	sj := r.Intn(len(others) + 1)
@@ -183,7 +241,7 @@ func (w *world) leaf(k int, pre bool, signer, finalSigner *pki.Entity) (leaf, fi
 		finalExt = append(finalExt, handAKIExt(finalSigner.Cert.SubjectKeyId))
 	}
 	final = mk(finalExt, finalSigner)
-	return leaf, final, fmt.Sprintf("precert key=%s ext=%d poison@%d sct@%d", kind, nExtra, pi, sj)
+	return leaf, final, fmt.Sprintf("precert key=%s ext=%d poison@%d sct@%d subject-dn=%s", kind, nExtra, pi, sj, subjStyle)
 }
 
 // handAKIExt is AuthorityKeyIdentifier ::= SEQUENCE { keyIdentifier [0] IMPLICIT OCTET STRING } by hand.
@@ -263,6 +321,15 @@ func (w *world) build() {
 				l, f, d := w.leaf(k, true, pi, issuer) // piSKI == nil: the authority key id moves to the end of the entry
 				both(fmt.Sprintf("Q%d", k), true, append([]*pki.Entity{l, pi}, path...), f, issuer, fmt.Sprintf("%s preissuer(ski=%v) inter=%d", d, piSKI != nil, nInter))
 			}
+		}
+		if r.Intn(2) == 0 {
+			// a trusted certificate that is NOT self-signed (a CA certified by somebody the log does
+			// not trust, accepted in its own right): the validated path ends at it, and submitted on
+			// its own it is a validated path of length 1
+			xt := w.ca(fmt.Sprintf("xtrusted-%d", w.id), untrusted, nil, 6, caKinds[r.Intn(len(caKinds))], ski(r))
+			w.roots = append(w.roots, xt)
+			lx, _, dx := w.leaf(80, false, xt, nil)
+			both("T", false, chainOf(lx, xt), nil, nil, dx+" issuer=trusted-not-self-signed")
 		}
 		// a few things that must be refused before the content path
 		l, _, _ := w.leaf(90, false, untrusted, nil)
@@ -422,6 +489,19 @@ func (w *world) build() {
 		c, _, dc := w.leaf(9, false, line[jc], nil)
 		one("C", false, append([]*pki.Entity{c}, line[jc:]...), nil, nil, fmt.Sprintf("%s %s depth=%d", dc, lineDesc, jc))
 	}
+	// The boundary chain length: a trusted certificate submitted ON ITS OWN to add-chain.  The
+	// validated path is the leaf alone; the entry is an x509_entry of the root and the extra data
+	// the encoding of an EMPTY certificate_chain (00 00 00), not "no extra data".
+	w.pool = append([]*item{}, w.items...)
+	for k, t := range w.roots {
+		kind := "self-signed"
+		if !bytes.Equal(handSubject(t.DER), handIssuer(t.DER)) {
+			kind = "not-self-signed"
+		}
+		it := add(fmt.Sprintf("R%d", k), false, chainOf(t), chainOf(t), nil, nil, fmt.Sprintf("cert trusted-root-as-leaf(%s) key=%s subject-dn=%s validated=leaf-only", kind, kindOf(t), w.styleOf[t]))
+		it.tags = []string{"validated:leaf-only", "leaf-only:" + kind}
+		w.alone = append(w.alone, it)
+	}
 }
 
 // ---------------------------------------------------------------- clocks
@@ -516,6 +596,10 @@ func handEntry(it *item) ([]byte, uint16, bool) {
 	if it.final == nil {
 		return nil, 1, false
 	}
+	// the reference itself: the final certificate the harness issued names its issuer byte for byte
+	if !bytes.Equal(handIssuer(it.final.DER), handSubject(it.finalIssuer.DER)) {
+		panic("the final-certificate twin does not carry its issuer's subject bytes")
+	}
 	tbs, err := x509.RemoveSCTList(it.final.Cert.RawTBSCertificate)
 	if err != nil {
 		return nil, 1, false
@@ -571,7 +655,7 @@ var (
 
 // precertEntryFacts reads an RFC 6962 PreCert entry body (issuer_key_hash, opaque TBSCertificate<1..2^24-1>)
 // and says what is wrong with it for a final certificate issued by finalIssuer; "" = nothing.
-func precertEntryFacts(entry []byte, finalIssuer *pki.Entity) string {
+func precertEntryFacts(entry []byte, finalIssuer *pki.Entity, precertDER []byte) string {
 	if len(entry) < 35 {
 		return "the precertificate entry is too short"
 	}
@@ -587,20 +671,31 @@ func precertEntryFacts(entry []byte, finalIssuer *pki.Entity) string {
 	if !ok || tag != 0x30 || len(rest) != 0 {
 		return "the entry's TBSCertificate is not one DER SEQUENCE"
 	}
-	fields, ok := derChildren(content)
-	if !ok || len(fields) < 6 {
+	fields, i, ok := splitTBS(content)
+	if !ok {
 		return "the entry's TBSCertificate does not split into its fields"
 	}
-	i := 0
-	if fields[0][0] == 0xa0 { // [0] EXPLICIT version
-		i = 1
+	// [version] serialNumber signature issuer validity subject subjectPublicKeyInfo [uids] [extensions]
+	// issuer: the final issuer's subject as it stands in that CA's certificate, byte for byte
+	// (read out of the DER by hand: no parser, no encoder in between)
+	if !bytes.Equal(fields[i+2], handSubject(finalIssuer.DER)) {
+		return "the entry's TBSCertificate.issuer is not the final issuer's subject name byte for byte"
 	}
-	// serialNumber, signature, issuer
-	if len(fields) < i+6 {
-		return "the entry's TBSCertificate has too few fields"
+	// everything but issuer and extensions is the precertificate's, byte for byte
+	pf, pi, ok := tbsFields(precertDER)
+	if !ok {
+		return "the submitted precertificate does not split into its fields"
 	}
-	if !bytes.Equal(fields[i+2], finalIssuer.Cert.RawSubject) {
-		return "the entry's TBSCertificate.issuer is not the final issuer's subject name"
+	if i != pi || len(fields) != len(pf) {
+		return "the entry's TBSCertificate does not have the precertificate's fields"
+	}
+	for k, name := range []string{"serialNumber", "signature", "", "validity", "subject", "subjectPublicKeyInfo"} {
+		if name != "" && !bytes.Equal(fields[i+k], pf[i+k]) {
+			return "the entry's TBSCertificate." + name + " is not the precertificate's byte for byte"
+		}
+	}
+	if i == 1 && !bytes.Equal(fields[0], pf[0]) {
+		return "the entry's TBSCertificate.version is not the precertificate's"
 	}
 	var akiValue []byte
 	nAKI := 0
@@ -657,15 +752,105 @@ func handSigInput(ts uint64, etype uint16, entry, ext []byte) []byte {
 	return append(out, ext...)
 }
 
-func verifyRaw(pub crypto.PublicKey, input, sig []byte) bool {
-	h := sha256.Sum256(input)
+// verifyRaw verifies a DigitallySigned signature with the standard library alone: the digest of
+// the input under the hash algorithm the signature's header DECLARES (TLS 1.2 HashAlgorithm
+// code), ECDSA (ASN.1) or RSASSA-PKCS1-v1_5 by the type of the log key.  (That the declared hash
+// is SHA-256, as RFC 6962 2.1.4 demands, is a separate clause of the oracle.)
+func verifyRaw(pub crypto.PublicKey, declared tls.HashAlgorithm, input, sig []byte) bool {
+	var h crypto.Hash
+	var d []byte
+	switch declared {
+	case tls.SHA1:
+		x := sha1.Sum(input)
+		h, d = crypto.SHA1, x[:]
+	case tls.SHA224:
+		x := sha256.Sum224(input)
+		h, d = crypto.SHA224, x[:]
+	case tls.SHA256:
+		x := sha256.Sum256(input)
+		h, d = crypto.SHA256, x[:]
+	case tls.SHA384:
+		x := sha512.Sum384(input)
+		h, d = crypto.SHA384, x[:]
+	case tls.SHA512:
+		x := sha512.Sum512(input)
+		h, d = crypto.SHA512, x[:]
+	default:
+		return false
+	}
 	switch k := pub.(type) {
 	case *ecdsa.PublicKey:
-		return ecdsa.VerifyASN1(k, h[:], sig)
+		return ecdsa.VerifyASN1(k, d, sig)
 	case *rsa.PublicKey:
-		return rsa.VerifyPKCS1v15(k, crypto.SHA256, h[:], sig) == nil
+		return rsa.VerifyPKCS1v15(k, h, d, sig) == nil
 	}
 	return false
+}
+
+// ---------------------------------------------------------------- log keys and instance options
+
+// logKinds: the key types and sizes a log may sign with.  The large keys live in slot 0 of the
+// harness/pki pool (one key of each per run: generating them is slow), the others in slot 7
+// (slots 0-6 of those kinds are the CAs' and the leaves').
+var logKinds = []string{"p256", "rsa2048", "p384", "rsa3072", "p521", "rsa4096"}
+
+func logKeyOf(kind string) crypto.Signer {
+	switch kind {
+	case "p521", "rsa3072", "rsa4096":
+		return pki.Key(kind, 0)
+	}
+	return pki.Key(kind, 7)
+}
+
+// instOpts: InstanceOptions that must not influence the entry, the SCT or the queued leaf.
+type instOpts struct {
+	CertQuota   string `json:"certificate_quota_user"` // "" | "ct_server" (ctfe.QuotaUserForCert) | "spki"
+	RemoteQuota bool   `json:"remote_quota_user"`
+	Mask        bool   `json:"mask_internal_errors"`
+	ProdReqLog  bool   `json:"default_request_log_behind_recorder"`
+	DeadlineSec int    `json:"deadline_s"`
+}
+
+func drawOpts(r *mrand.Rand, plain bool) instOpts {
+	o := instOpts{DeadlineSec: 10}
+	if plain {
+		return o
+	}
+	o.CertQuota = []string{"", "ct_server", "spki"}[r.Intn(3)]
+	o.RemoteQuota = r.Intn(2) == 0
+	o.Mask = r.Intn(2) == 0
+	o.ProdReqLog = r.Intn(2) == 0
+	o.DeadlineSec = []int{1, 10, 60, 86400}[r.Intn(4)]
+	return o
+}
+
+func (o instOpts) tags() []string {
+	cq := o.CertQuota
+	if cq == "" {
+		cq = "none"
+	}
+	return []string{"opt:cert-quota=" + cq, fmt.Sprintf("opt:remote-quota=%v", o.RemoteQuota), fmt.Sprintf("opt:mask=%v", o.Mask),
+		fmt.Sprintf("opt:prod-request-log=%v", o.ProdReqLog), fmt.Sprintf("opt:deadline=%ds", o.DeadlineSec)}
+}
+
+func (o instOpts) apply(e *ctfeenv.Options) {
+	switch o.CertQuota {
+	case "ct_server":
+		e.CertificateQuotaUser = ctfe.QuotaUserForCert // what ct_server installs with --quota_intermediate (its default)
+	case "spki":
+		e.CertificateQuotaUser = func(c *x509.Certificate) string {
+			h := sha256.Sum256(c.RawSubjectPublicKeyInfo)
+			return fmt.Sprintf("@ca %x", h[:8])
+		}
+	}
+	if o.RemoteQuota {
+		e.RemoteQuotaUser = func(rq *http.Request) string { return "@remote " + rq.RemoteAddr }
+	}
+	e.Mask = o.Mask
+	if o.ProdReqLog {
+		e.RequestLogInner = new(ctfe.DefaultRequestLog)
+	}
+	e.Deadline = time.Duration(o.DeadlineSec) * time.Second
 }
 
 // ---------------------------------------------------------------- one history
@@ -692,7 +877,9 @@ type stepObs struct {
 
 func runHistory(w *world, nSteps int, out *lib.Writer) {
 	r := w.r
-	env, err := ctfeenv.New(ctfeenv.Options{Roots: w.roots, LogKey: w.logKey, Dir: *lib.OutDir})
+	eopts := ctfeenv.Options{Roots: w.roots, LogKey: w.logKey, Dir: *lib.OutDir}
+	w.opts.apply(&eopts)
+	env, err := ctfeenv.New(eopts)
 	if err != nil {
 		panic(err)
 	}
@@ -741,12 +928,18 @@ func runHistory(w *world, nSteps int, out *lib.Writer) {
 	var notes []string
 	tags := append([]string{}, w.tags...)
 	tags = append(tags, "logkey:"+w.logKind)
+	tags = append(tags, w.opts.tags()...)
 	var used []*item
 	tried, triedLeaf := map[string]bool{}, map[string]bool{}
 
+	// one step of every history (besides what the random picks bring) submits a trusted certificate on its own
+	nSteps++
+	aloneAt := r.Intn(nSteps)
 	for s := 0; s < nSteps; s++ {
 		var it *item
-		if len(used) > 0 && r.Intn(2) == 0 {
+		if s == aloneAt && len(w.alone) > 0 {
+			it = w.alone[r.Intn(len(w.alone))]
+		} else if len(used) > 0 && r.Intn(2) == 0 {
 			// resubmit something related to an earlier step: same item, or another chain for the same leaf
 			prev := used[r.Intn(len(used))]
 			var same []*item
@@ -757,12 +950,13 @@ func runHistory(w *world, nSteps int, out *lib.Writer) {
 			}
 			it = same[r.Intn(len(same))]
 		} else {
-			it = w.items[r.Intn(len(w.items))]
+			// (the trusted certificates on their own have their step, and come back as repeats)
+			it = w.pool[r.Intn(len(w.pool))]
 			if r.Intn(3) != 0 {
 				// prefer a leaf this history has not submitted yet, so that one history walks
 				// through most of its world's shapes
 				var fresh []*item
-				for _, x := range w.items {
+				for _, x := range w.pool {
 					if !tried[x.name] && (x.invalid || !triedLeaf[string(x.submitted[0].DER)]) {
 						fresh = append(fresh, x)
 					}
@@ -844,8 +1038,18 @@ func runHistory(w *world, nSteps int, out *lib.Writer) {
 		} else {
 			tags = append(tags, "submission:first")
 		}
+		if !it.invalid && len(it.validated) > 1 {
+			tags = append(tags, "issuer-dn:"+w.styleOf[it.validated[1]])
+		}
+		if !it.invalid {
+			tags = append(tags, fmt.Sprintf("validated-len:%d", len(it.validated)))
+		}
 		switch {
 		case it.pre && strings.Contains(it.shape, "preissuer("), it.pre && strings.Contains(it.shape, "xpre="):
+			if it.finalIssuer != nil {
+				// the name BuildPrecertTBS has to copy into the entry
+				tags = append(tags, "preissuer-final-issuer-dn:"+w.styleOf[it.finalIssuer], "preissuer-final-issuer-dn:"+goWouldReencode(handSubject(it.finalIssuer.DER)))
+			}
 			tags = append(tags, "kind:precert-preissuer")
 		case it.pre:
 			tags = append(tags, "kind:precert-direct")
@@ -936,10 +1140,10 @@ func runHistory(w *world, nSteps int, out *lib.Writer) {
 				libInput, err = ct.SerializeSCTSignatureInput(*sct, ct.LogEntry{Leaf: *cleaf})
 				if err != nil {
 					problem("client signature input: %v", err)
-				} else if !verifyRaw(w.logKey.Public(), libInput, sct.Signature.Signature) {
+				} else if !verifyRaw(w.logKey.Public(), sct.Signature.Algorithm.Hash, libInput, sct.Signature.Signature) {
 					problem("the SCT's signature does not verify over the entry the client derives from the submitted chain (library client path)")
 					// what DID the log sign?  (observed for the model comparison only)
-					if fs := firstSigned[leafKey]; fs != nil && verifyRaw(w.logKey.Public(), fs, sct.Signature.Signature) {
+					if fs := firstSigned[leafKey]; fs != nil && verifyRaw(w.logKey.Public(), sct.Signature.Algorithm.Hash, fs, sct.Signature.Signature) {
 						obsSigned = lib.Some(lib.Bytes(fs))
 					}
 				} else {
@@ -947,7 +1151,7 @@ func runHistory(w *world, nSteps int, out *lib.Writer) {
 				}
 			}
 			wantSig := tls.ECDSA
-			if w.logKind == "rsa2048" {
+			if strings.HasPrefix(w.logKind, "rsa") {
 				wantSig = tls.RSA
 			}
 			if sct.Signature.Algorithm.Hash != tls.SHA256 || sct.Signature.Algorithm.Signature != wantSig {
@@ -957,7 +1161,7 @@ func runHistory(w *world, nSteps int, out *lib.Writer) {
 			entry, et16, have := handEntry(it)
 			if have {
 				hi := handSigInput(sct.Timestamp, et16, entry, sct.Extensions)
-				if !verifyRaw(w.logKey.Public(), hi, sct.Signature.Signature) {
+				if !verifyRaw(w.logKey.Public(), sct.Signature.Algorithm.Hash, hi, sct.Signature.Signature) {
 					problem("the SCT's signature does not verify over the RFC 6962 entry derived independently (final certificate without its SCT list, final issuer's key hash)")
 				}
 				tags = append(tags, "oracle:hand-entry")
@@ -986,7 +1190,7 @@ func runHistory(w *world, nSteps int, out *lib.Writer) {
 							problem("LeafValue is not a v1 timestamped precert_entry")
 						} else if len(lv) < 16 || lv[len(lv)-2] != 0 || lv[len(lv)-1] != 0 {
 							problem("LeafValue does not end with empty CtExtensions")
-						} else if what := precertEntryFacts(lv[12:len(lv)-2], it.finalIssuer); what != "" {
+						} else if what := precertEntryFacts(lv[12:len(lv)-2], it.finalIssuer, it.submitted[0].DER); what != "" {
 							problem("queued precertificate entry (final issuer %s): %s", it.finalIssuer.Cert.Subject.CommonName, what)
 						}
 						tags = append(tags, "oracle:entry-fields")
@@ -1002,7 +1206,22 @@ func runHistory(w *world, nSteps int, out *lib.Writer) {
 					problem("LeafIdentityHash is not SHA-256 of the submitted leaf certificate")
 				}
 				if !bytes.Equal(qreq.Leaf.ExtraData, handExtraData(it.pre, it.validated)) {
-					problem("ExtraData is not the validated chain with the root")
+					problem("ExtraData (%d bytes) is not the RFC 6962 4.6 encoding of the validated chain after the leaf (%d certificates, root included)", len(qreq.Leaf.ExtraData), len(it.validated)-1)
+				}
+				// what a get-entries client makes of the stored pair (leaf_input, extra_data)
+				if rle, derr := ct.RawLogEntryFromLeaf(0, &ct.LeafEntry{LeafInput: qreq.Leaf.LeafValue, ExtraData: qreq.Leaf.ExtraData}); derr != nil {
+					problem("a get-entries client cannot decode the queued leaf with its extra data: %v", derr)
+				} else {
+					if !bytes.Equal(rle.Cert.Data, it.submitted[0].DER) {
+						problem("the decoded entry's certificate is not the submitted leaf")
+					}
+					same := len(rle.Chain) == len(it.validated)-1
+					for k := 0; same && k < len(rle.Chain); k++ {
+						same = bytes.Equal(rle.Chain[k].Data, it.validated[k+1].DER)
+					}
+					if !same {
+						problem("the decoded entry's chain is not the validated chain after the leaf")
+					}
 				}
 			}
 			// (4) timestamps: a repeat carries the stored timestamp, a first submission the clock's
@@ -1050,7 +1269,7 @@ func runHistory(w *world, nSteps int, out *lib.Writer) {
 		tab = append(tab, lib.Pair(lib.Bytes([]byte(k)), lib.Bytes(htab[k])))
 	}
 	kind := "KEcdsa"
-	if w.logKind == "rsa2048" {
+	if strings.HasPrefix(w.logKind, "rsa") {
 		kind = "KRsa"
 	}
 	note := strings.Join(notes, " | ")
@@ -1060,7 +1279,7 @@ func runHistory(w *world, nSteps int, out *lib.Writer) {
 	}
 	out.Add(lib.Case{
 		Coq:    fmt.Sprintf("CHistory %s %s %s %s", lib.Bytes(logSPKI), kind, lib.List(tab), "["+strings.Join(coqSteps, "; ")+"]"),
-		Input:  map[string]interface{}{"log_key": w.logKind, "roots": len(w.roots), "steps": recs},
+		Input:  map[string]interface{}{"log_key": w.logKind, "options": w.opts, "roots": len(w.roots), "steps": recs},
 		Impl:   obss,
 		PropOK: propOK, Note: note, Tags: tags,
 	})
@@ -1076,12 +1295,13 @@ func main() {
 	n := lib.Count(26, 240)
 	for i := 0; i < n; i++ {
 		w := &world{r: r, id: i}
-		w.logKind = []string{"p256", "rsa2048"}[i%2]
+		w.logKind = logKinds[i%len(logKinds)]
 		if r.Intn(5) == 0 {
-			w.logKind = []string{"p256", "rsa2048"}[r.Intn(2)]
+			w.logKind = logKinds[r.Intn(len(logKinds))]
 		}
-		w.logKey = pki.Key(w.logKind, 7)
+		w.logKey = logKeyOf(w.logKind)
 		w.build()
+		w.opts = drawOpts(r, i%5 == 4) // every fifth history runs the plain configuration (5 and the 6 key kinds are coprime)
 		runHistory(w, 4+r.Intn(6), out)
 	}
 	out.Close()
